@@ -5,7 +5,9 @@
 //   f64 / ld / c64   double, long double, std::complex<double> (bounded condition number; residual test).
 //
 // op line:  <field> <op> <rep> <n> <piv> <A> [<b>]
-//   op  = solve | invert | det | fmhinv | fmhinvT      rep = fm | dm | diag      piv = 1 | 0
+//   op  = solve | invert | det | fmhinv | fmhinvT      rep = fm | dm | diag      piv = 1 | 0 | d
+//   (d = the member function is called WITHOUT the optional doPivoting argument; the property then demands the
+//   behaviour of pivoting-on.)  n = 1..7 for fm / diag, 1..10 for dm.
 //   <A> row-major (diag: the n diagonal entries); gf: residues, floats: binary64 bit patterns in decimal
 //   (c64: re,im pairs; ld: the double values are widened to long double).
 //
@@ -105,18 +107,20 @@ template <class M, class K> bool sameMat(const M& A, int n, const std::vector<K>
   return true;
 }
 
+// piv: 1 / 0 = explicit argument, 2 = call without the optional argument
 template <class K, class M, class V>
-Raw<K> runDense(M& A, V& x, V& bv, const std::string& op, int n, bool piv, const std::vector<K>& a,
+Raw<K> runDense(M& A, V& x, V& bv, const std::string& op, int n, int piv, const std::vector<K>& a,
                 const std::vector<K>& b) {
   Raw<K> r;
   fill(A, n, a);
   try {
     if (op == "solve") {
-      for (int i = 0; i < n; ++i) { bv[i] = b[i]; x[i] = K(0); }
+      // x starts with garbage: the result must not depend on what the caller left in x
+      for (int i = 0; i < n; ++i) { bv[i] = b[i]; x[i] = K(double(1000 + 7 * i)); }
       const M& cA = A;
       const V& cb = bv;
       try {
-        cA.solve(x, cb, piv);
+        if (piv == 2) cA.solve(x, cb); else cA.solve(x, cb, piv == 1);
         for (int i = 0; i < n; ++i) r.out.push_back(x[i]);
       } catch (Dune::FMatrixError&) {
         r.threw = true;
@@ -127,14 +131,14 @@ Raw<K> runDense(M& A, V& x, V& bv, const std::string& op, int n, bool piv, const
     } else if (op == "det") {
       const M& cA = A;
       try {
-        r.det = cA.determinant(piv);
+        r.det = piv == 2 ? cA.determinant() : cA.determinant(piv == 1);
       } catch (Dune::FMatrixError&) {
         r.threw = true;
       }
       r.inputsChanged = !sameMat(A, n, a);
     } else if (op == "invert") {
       try {
-        A.invert(piv);
+        if (piv == 2) A.invert(); else A.invert(piv == 1);
         for (int i = 0; i < n; ++i)
           for (int j = 0; j < n; ++j) r.out.push_back(A[i][j]);
       } catch (Dune::FMatrixError&) {
@@ -150,7 +154,7 @@ Raw<K> runDense(M& A, V& x, V& bv, const std::string& op, int n, bool piv, const
   return r;
 }
 
-template <class K, int n> Raw<K> runFM(const std::string& op, bool piv, const std::vector<K>& a, const std::vector<K>& b) {
+template <class K, int n> Raw<K> runFM(const std::string& op, int piv, const std::vector<K>& a, const std::vector<K>& b) {
   Dune::FieldMatrix<K, n, n> A;
   Dune::FieldVector<K, n> x, bv;
   if (op == "fmhinv" || op == "fmhinvT") {
@@ -171,7 +175,7 @@ template <class K, int n> Raw<K> runFM(const std::string& op, bool piv, const st
   return runDense<K>(A, x, bv, op, n, piv, a, b);
 }
 
-template <class K> Raw<K> runDM(const std::string& op, int n, bool piv, const std::vector<K>& a, const std::vector<K>& b) {
+template <class K> Raw<K> runDM(const std::string& op, int n, int piv, const std::vector<K>& a, const std::vector<K>& b) {
   Dune::DynamicMatrix<K> A(n, n, K(0));
   Dune::DynamicVector<K> x(n, K(0)), bv(n, K(0));
   return runDense<K>(A, x, bv, op, n, piv, a, b);
@@ -217,7 +221,7 @@ template <class K, int n> Raw<K> runDiag(const std::string& op, const std::vecto
 }
 
 template <class K>
-Raw<K> runAny(const std::string& op, const std::string& rep, int n, bool piv, const std::vector<K>& a,
+Raw<K> runAny(const std::string& op, const std::string& rep, int n, int piv, const std::vector<K>& a,
               const std::vector<K>& b) {
   if (rep == "dm") return runDM<K>(op, n, piv, a, b);
   if (rep == "fm") {
@@ -275,13 +279,17 @@ static long laplaceMod(const std::vector<long>& a, int n, int m) {
 
 static std::string listOf(const std::vector<long>& v) { return listStr(v); }
 
-static Result execGF(const std::string& op, const std::string& rep, int n, bool piv, const std::vector<long>& al,
+static void shadowStats(const std::vector<long>& full, int n, bool piv, const std::string& op);
+
+static Result execGF(const std::string& op, const std::string& rep, int n, int pivArg, const std::vector<long>& al,
                      const std::vector<long>& bl) {
   Result res;
   std::vector<Fp> a, b;
   for (long x : al) a.push_back(Fp(x));
   for (long x : bl) b.push_back(Fp(x));
-  Raw<Fp> r = runAny<Fp>(op, rep, n, piv, a, b);
+  Raw<Fp> r = runAny<Fp>(op, rep, n, pivArg, a, b);
+  // what the property demands: a call without the optional argument must behave like pivoting-on
+  const bool piv = pivArg != 0;
   if (r.other == "bad-op") { res.impl = "bad-op"; res.oracle = "FAIL harness cannot execute this op line"; return res; }
 
   // full matrix for the oracle
@@ -295,11 +303,12 @@ static Result execGF(const std::string& op, const std::string& rep, int n, bool 
 
   bool unspecified;
   if (rep == "diag") unspecified = singular && op != "det";
-  else if (n <= 3) unspecified = singular && op != "det";
+  else if (n >= 1 && n <= 3) unspecified = singular && op != "det";
   else unspecified = !singular && !piv && !minorsOk;
-  stat(std::string("gf_") + (singular ? "singular" : "regular") + (n <= 3 ? "_closed" : "_lu"));
+  stat(std::string("gf_") + (singular ? "singular" : "regular") + (n >= 1 && n <= 3 ? "_closed" : "_lu"));
   if (unspecified) stat("gf_unspecified");
   if (!singular && !minorsOk && n >= 4 && rep != "diag") stat("gf_needs_pivoting");
+  if (rep != "diag" && n >= 4) shadowStats(full, n, piv, op);
 
   auto fail = [&](const std::string& m) { if (res.oracle == "ok" || res.oracle == "ok trivial") res.oracle = "FAIL " + m; };
   if (!r.other.empty()) { res.impl = r.other; fail("unexpected exception kind " + r.other); return res; }
@@ -366,6 +375,47 @@ static Result execGF(const std::string& op, const std::string& rep, int n, bool 
   return res;
 }
 
+// STATISTICS ONLY (never used for a verdict): a plain elimination mod p that mirrors the pivot rule of the code
+// (first maximum of min(v, p-v)) to record which pivot patterns the generated inputs exercise.
+static void shadowStats(const std::vector<long>& full, int n, bool piv, const std::string& op) {
+  std::vector<long> A = full;
+  auto mag = [](long v) { return std::min(v, P - v); };
+  auto inv = [](long a) { long r = 1, b = a, e = P - 2; while (e) { if (e & 1) r = r * b % P; b = b * b % P; e >>= 1; } return r; };
+  int swaps = 0, failStep = -1;
+  bool tie = false;
+  std::vector<int> pivot(n);
+  for (int i = 0; i < n; ++i) {
+    int imax = i;
+    if (piv) {
+      long pm = mag(A[i * n + i]);
+      for (int k = i + 1; k < n; ++k) {
+        if (mag(A[k * n + i]) > pm) { pm = mag(A[k * n + i]); imax = k; }
+        else if (pm != 0 && mag(A[k * n + i]) == pm) tie = true;
+      }
+      if (imax != i) { ++swaps; for (int j = 0; j < n; ++j) std::swap(A[i * n + j], A[imax * n + j]); }
+    }
+    pivot[i] = imax;
+    if (A[i * n + i] == 0) { failStep = i; break; }
+    long d = inv(A[i * n + i]);
+    for (int k = i + 1; k < n; ++k) {
+      long f = A[k * n + i] * d % P;
+      for (int j = i; j < n; ++j) A[k * n + j] = modp(A[k * n + j] - f * A[i * n + j]);
+    }
+  }
+  stat("lu_swaps_" + std::string(swaps >= 4 ? "4plus" : std::to_string(swaps)));
+  if (swaps >= 2 && swaps % 2 == 0 && failStep < 0 && op == "det") stat("lu_det_even_swaps");
+  if (tie) stat("lu_pivot_tie");
+  if (failStep >= 0) stat(failStep == n - 1 ? "lu_zero_pivot_last_step" : failStep == 0 ? "lu_zero_pivot_first_step" : "lu_zero_pivot_middle_step");
+  if (failStep < 0 && op == "invert" && swaps >= 2) {
+    // does the order of the column un-permutation matter?  apply the swaps (i, pivot[i]) descending and ascending
+    std::vector<int> d(n), u(n);
+    for (int i = 0; i < n; ++i) d[i] = u[i] = i;
+    for (int i = n - 1; i >= 0; --i) std::swap(d[i], d[pivot[i]]);
+    for (int i = 0; i < n; ++i) std::swap(u[i], u[pivot[i]]);
+    if (d != u) stat("lu_unpermute_order_matters");
+  }
+}
+
 // ------------------------------------------------------------------------------------------------
 // floating point oracle
 // ------------------------------------------------------------------------------------------------
@@ -409,7 +459,7 @@ template <class K> long double epsOf() {
 }
 
 template <class K>
-static Result execFlt(const std::string& op, const std::string& rep, int n, bool piv, const std::vector<K>& a,
+static Result execFlt(const std::string& op, const std::string& rep, int n, int piv, const std::vector<K>& a,
                       const std::vector<K>& b) {
   Result res;
   Raw<K> r = runAny<K>(op, rep, n, piv, a, b);
@@ -523,9 +573,12 @@ static Result execLine(const std::string& line) {
   auto w = words(line);
   if (w.size() != 6 && w.size() != 7) return bad;
   const std::string &field = w[0], &op = w[1], &rep = w[2];
+  if (w[3].empty() || w[3].find_first_not_of("0123456789") != std::string::npos || w[3].size() > 2) return bad;
   int n = std::atoi(w[3].c_str());
-  if (n < 1 || n > 7 || (w[4] != "0" && w[4] != "1")) return bad;
-  bool piv = w[4] == "1";
+  if (w[4] != "0" && w[4] != "1" && w[4] != "d") return bad;
+  // (a 0x0 DynamicMatrix is not an admissible operand: DynamicMatrix::mat_cols() asserts rows() > 0)
+  if (n < 1 || n > (rep == "dm" ? 10 : 7)) return bad;
+  int piv = w[4] == "1" ? 1 : w[4] == "0" ? 0 : 2;
   bool needB = op == "solve";
   if (needB != (w.size() == 7)) return bad;
   if (rep != "fm" && rep != "dm" && rep != "diag") return bad;
@@ -536,7 +589,7 @@ static Result execLine(const std::string& line) {
   stat("op_" + op);
   stat("rep_" + rep);
   stat("n_" + std::to_string(n));
-  if (rep != "diag") stat(piv ? "pivoting_on" : "pivoting_off");
+  if (rep != "diag") stat(piv == 1 ? "pivoting_on" : piv == 0 ? "pivoting_off" : "pivoting_default_argument");
   if (field == "gf") {
     std::vector<long> a = parseList(w[5]), b;
     if (needB) b = parseList(w[6]);
@@ -606,6 +659,7 @@ static std::vector<int> rndPerm(Rng& g, int n) {
 // a matrix generator for GF(p); `kind` is recorded in the statistics
 static LMat genGF(Rng& g, int n, std::string& kind) {
   LMat A(n * n, 0);
+  if (n == 0) { kind = "empty"; return A; }
   int k = (int)g.below(12);
   int style = (int)g.below(3);
   auto nz = [&] { long x; do x = rndEntry(g, style == 2 ? 1 : style); while (x == 0); return x; };
@@ -732,6 +786,20 @@ static std::vector<double> genDiagDom(Rng& g, int n) {
   return A;
 }
 
+// scaled permutation matrix plus a tiny full perturbation: perfectly conditioned (cond ~ max|d|/min|d| <= 2), but
+// without choosing the column MAXIMUM as pivot the elimination divides by entries of size eps (growth ~ 1/eps) and
+// the residual explodes -- the backward-error clause of the property depends on the pivoting rule, not only on
+// "some nonzero pivot".
+static std::vector<double> genPermTiny(Rng& g, int n) {
+  std::vector<double> A(n * n, 0.0);
+  static const double epss[] = {1e-6, 1e-9, 1e-13, 1e-17, 1e-30};
+  double eps = epss[g.below(5)];
+  for (auto& x : A) x = eps * rndUnit(g);
+  auto p = rndPerm(g, n);
+  for (int i = 0; i < n; ++i) A[p[i] * n + i] = (g.coin() ? 1 : -1) * (1.0 + (double)g.below(1000) / 1000.0);
+  return A;
+}
+
 // exhaustive 0/1 (or 0/1/-1) matrices of size n: every zero pattern, hence every pivot pattern / rank profile
 static std::string genEnum(long idx, const Args& args) {
   int n = (int)args.get("n", 4);
@@ -752,8 +820,10 @@ static std::string genEnum(long idx, const Args& args) {
   std::string op = ops[combo % 3];
   bool piv = combo < 3;
   std::string rep = ((code ^ (code >> 7)) & 1) ? "dm" : "fm";
+  // one in eight of the pivoting-on calls goes through the default argument
+  const char* pivTok = !piv ? "0" : (((code >> 5) ^ (code >> 11)) & 7) == 0 ? "d" : "1";
   std::ostringstream os;
-  os << "gf " << op << " " << rep << " " << n << " " << (piv ? 1 : 0) << " " << listStr(A);
+  os << "gf " << op << " " << rep << " " << n << " " << pivTok << " " << listStr(A);
   if (op == "solve") {
     LMat b;
     for (int i = 0; i < n; ++i) b.push_back((long)((code >> i) & 1) + i + 1);
@@ -785,8 +855,12 @@ static std::string gen(Rng& g, long idx, const Args& args) {
     op = t < 38 ? "solve" : t < 70 ? "invert" : t < 92 ? "det" : t < 96 ? "fmhinv" : "fmhinvT";
   }
   if (op == "fmhinv" || op == "fmhinvT") { rep = "fm"; if (n > 3) n = 1 + (int)g.below(3); }
+  // sizes beyond the FieldMatrix instances of this harness (DynamicMatrix only)
+  if (rep == "dm" && g.coin(1, 10)) { static const std::vector<long> bs = {8, 8, 9, 10}; n = (int)g.pick(bs); }
   bool piv = rep == "diag" ? true : g.coin(3, 5);
-  os << field << " " << op << " " << rep << " " << n << " " << (piv ? 1 : 0) << " ";
+  // the optional argument left out (only meaningful for the dense representations)
+  bool dflt = rep != "diag" && piv && g.coin(1, 5);
+  os << field << " " << op << " " << rep << " " << n << " " << (dflt ? "d" : piv ? "1" : "0") << " ";
   if (field == "gf") {
     std::string kind;
     LMat A;
@@ -820,8 +894,9 @@ static std::string gen(Rng& g, long idx, const Args& args) {
     }
     stat("gen_flt_diag");
   } else {
-    std::vector<double> R = piv ? genWellCond(g, n) : genDiagDom(g, n);
-    stat(piv ? "gen_flt_wellcond" : "gen_flt_diagdom");
+    bool tiny = piv && g.coin(1, 3);
+    std::vector<double> R = tiny ? genPermTiny(g, n) : piv ? genWellCond(g, n) : genDiagDom(g, n);
+    stat(tiny ? "gen_flt_perm_plus_tiny" : piv ? "gen_flt_wellcond" : "gen_flt_diagdom");
     if (scal == 1) A = R;
     else {
       // complex: multiply row i by a unit phase and add a small imaginary perturbation for the diag.-dominant case
@@ -832,7 +907,19 @@ static std::string gen(Rng& g, long idx, const Args& args) {
         for (auto& x : I) x = 0.2 * x / (mx * n);
       } else
         for (int i = 0; i < n; ++i) for (int j = 0; j < n; ++j) if (i != j) I[i * n + j] = rndUnit(g) * 0.1;
-      for (int t = 0; t < n * n; ++t) { A.push_back(R[t]); A.push_back(I[t]); }
+      // exact unit phases i^k on rows and columns (unitary diagonal scalings: singular values, hence the condition
+      // number, and diagonal dominance are unchanged).  mode 1: a real matrix times phases -> every entry is purely
+      // real or purely imaginary, so the pivot search must really use |re| + |im| (or |z|), not a component.
+      int mode = (int)g.below(3);
+      if (mode == 1) std::fill(I.begin(), I.end(), 0.0);
+      std::vector<int> pr(n, 0), pc(n, 0);
+      if (mode >= 1) for (int t = 0; t < n; ++t) { pr[t] = (int)g.below(4); pc[t] = (int)g.below(4); }
+      stat(mode == 0 ? "gen_c64_plain" : mode == 1 ? "gen_c64_real_times_phases" : "gen_c64_phases");
+      for (int t = 0; t < n * n; ++t) {
+        double re = R[t], im = I[t];
+        for (int k = (pr[t / n] + pc[t % n]) % 4; k > 0; --k) { double nr = -im; im = re; re = nr; }  // times i
+        A.push_back(re); A.push_back(im);
+      }
     }
   }
   std::vector<unsigned long long> bits;
